@@ -331,9 +331,23 @@ fn dig(path: &str, load: bool) {
                     l.push(format!("{} {}", i, cmp_load(a, b)));
                 }
                 o += &format!(", \"loaded\": {}", jlist(&l));
-                let mut names: Vec<String> = f.test_cases.iter().map(|t| t.name.clone()).collect();
+                // every label, and near misses of every label (letter case, blanks, one character more or less): a name selects the
+                // first test whose label EQUALS it and is unknown otherwise
+                let mut names: Vec<String> = vec![];
+                for t in &f.test_cases {
+                    let l = &t.name;
+                    let mut cand = vec![l.clone(), l.to_uppercase(), l.to_lowercase(), format!("{} ", l), format!(" {}", l), format!("{}x", l)];
+                    if let Some((i, _)) = l.char_indices().last() {
+                        cand.push(l[..i].to_string());
+                    }
+                    for c in cand {
+                        if !names.contains(&c) {
+                            names.push(c);
+                        }
+                    }
+                }
+                names.retain(|n| n != "no such test");
                 names.push("no such test".into());
-                names.dedup();
                 let mut bn = vec![];
                 for n in names {
                     let first = f.test_cases.iter().position(|t| t.name == n);
